@@ -8,7 +8,7 @@
 From Coq Require Import ZArith List Bool.
 From Coq.Strings Require Import Byte String.
 From EsVerif.Common Require Import Base Bytes.
-From EsVerif.C01 Require Import Framing FramingProofs Model Spec Layout LayoutProofs Proofs Witness.
+From EsVerif.C01 Require Import Framing FramingProofs Model Spec Layout LayoutProofs Entry Gen GenProofs Proofs Witness.
 Import ListNotations.
 Open Scope Z_scope.
 Open Scope list_scope.
@@ -147,6 +147,68 @@ Theorem C01_recfile_roundtrip_any_layout : forall dt v nrows,
   (nrows = None \/ (exists m, nrows = Some m /\ m < 0) \/ nrows = Some (Z.of_nat (view_size v))) ->
   recfile_read0 (recfile_write_view v) dt nrows = Ok (view_rows v).
 Proof. exact recfile_roundtrip_any_layout. Qed.
+
+(* ---- the entry points (Entry.v): SFile / sfile.write+read (either argument order) / io.write+read
+   denote the same model functions, Recfile / recfile.write+read likewise ... *)
+Theorem C01_entrypoints_agree :
+  forall (pyval : Type) (v_str : list byte -> pyval) (v_int : Z -> pyval) (v_descr : dtype -> pyval)
+         (np_dtype : pyval -> option dtype) (pformat : hdict pyval -> list byte)
+         (pyeval : list byte -> option (hdict pyval)),
+    (forall sw h dt v, sfile_write_fn pyval v_str v_descr pformat sw h dt v = SFile_write pyval v_str v_descr pformat h dt v)
+    /\ (forall h dt v, io_write pyval v_str v_descr pformat h dt v = SFile_write pyval v_str v_descr pformat h dt v)
+    /\ (forall dt v, SFile_write pyval v_str v_descr pformat None dt v = SFile_write pyval v_str v_descr pformat (Some []) dt v)
+    /\ (forall h dt v, SFile_write pyval v_str v_descr pformat (Some h) dt v = sfile_write_view pyval v_str v_descr pformat h dt v)
+    /\ (forall f, sfile_read_fn pyval v_str v_int np_dtype pyeval f = SFile_read pyval v_str v_int np_dtype pyeval f)
+    /\ (forall f, io_read pyval v_str v_int np_dtype pyeval f = SFile_read pyval v_str v_int np_dtype pyeval f)
+    /\ (forall f, SFile_read pyval v_str v_int np_dtype pyeval f = sfile_read pyval v_str v_int np_dtype pyeval f)
+    /\ (forall v, recfile_write_fn v = Recfile_write v) /\ (forall v, Recfile_write v = recfile_write_view v)
+    /\ (forall f dt n, recfile_read_fn f dt n = Recfile_read f dt n)
+    /\ (forall f dt n, Recfile_read f dt n = recfile_read0 f dt n).
+Proof. exact entrypoints_agree. Qed.
+
+(* ... hence the round trip holds for every writer/reader combination of the self-describing
+   family, header given or None. *)
+Theorem C01_roundtrip_every_entry_point :
+  forall (pyval : Type) (pyeq : pyval -> pyval -> Prop)
+         (v_str : list byte -> pyval) (v_int : Z -> pyval) (v_descr : dtype -> pyval)
+         (np_dtype : pyval -> option dtype) (pformat : hdict pyval -> list byte)
+         (pyeval : list byte -> option (hdict pyval))
+         (hdr : option (hdict pyval)) (dt : dtype) (v : ndview),
+    H_pf pyval pyeq pformat pyeval np_dtype (make_header pyval v_str v_descr (hdr_arg pyval hdr) dt) dt ->
+    user_hdr_ok pyval (hdr_arg pyval hdr) ->
+    in_bounds v = true -> (1 <= view_size v)%nat -> Z.of_nat (v_item v) = rowsize dt -> 0 < rowsize dt ->
+    forall w r,
+      In w [SFile_write pyval v_str v_descr pformat; sfile_write_fn pyval v_str v_descr pformat false;
+            sfile_write_fn pyval v_str v_descr pformat true; io_write pyval v_str v_descr pformat] ->
+      In r [SFile_read pyval v_str v_int np_dtype pyeval; sfile_read_fn pyval v_str v_int np_dtype pyeval;
+            io_read pyval v_str v_int np_dtype pyeval] ->
+      exists out, r (w hdr dt v) = Ok out
+                  /\ roundtrip_ok pyval pyeq v_int np_dtype (hdr_arg pyval hdr) dt (view_rows v) out.
+Proof. exact roundtrip_every_entry_point. Qed.
+
+(* ---- tie to the source (Gen.v is regenerated from sfile.py / Util.py / records.cpp on every run
+   by harness/props/c01_translate.py; these statements are re-checked when it changes).
+
+   The constants of the model are the constants of the source. *)
+Theorem C01_gen_consts :
+  gen_sfile_version = sfile_version
+  /\ gen_deleted_keys = deleted_keys
+  /\ gen_scan_pat = pat /\ gen_scan_incr = blank_extra
+  /\ gen_update_prefix = gen_size_prefix /\ gen_update_width = gen_size_width
+  /\ forall n, size_line n = gen_size_prefix ++ pad_left gen_size_width (dec n).
+Proof. exact gen_consts. Qed.
+
+(* The model's low-level read is the composition of the translated integer functions
+   (_count_nrows, Records::process_nrows, _get_slice_nrows, Records::process_slice) with the fread. *)
+Theorem C01_gen_recfile_read : forall f offset rs nrows,
+  recfile_read f offset rs nrows = recfile_read_gen f offset rs nrows.
+Proof. exact recfile_read_is_gen. Qed.
+
+(* C's truncating / and % in Records::process_slice and Python's floor // and % in
+   Recfile._get_slice_nrows agree on every slice the reader accepts. *)
+Theorem C01_gen_slice_agree : forall n r1 r2 s, 0 <= r1 -> r1 <= r2 -> r2 <= n -> 0 < s ->
+  gen_process_slice n r1 r2 s = gen_get_slice_nrows r1 r2 s.
+Proof. exact gen_slice_agree. Qed.
 
 (* What the case files evaluate ([sfile_read_c]) is the model's read with eval / numpy.dtype
    resolved. *)
